@@ -49,7 +49,9 @@ def run(rep: Report, ctx: Any) -> str:
                       "carry the reference path")
     rep.rule("R07.7", "a component schema removed from the registry of references (del / pop on classes_by_reference) is named in a "
                       "diagnostic: on every path to the removal the removed key is written into the text of an error (or an error built "
-                      "from it is recorded)")
+                      "from it is recorded); or the removing function hands the key on - every path from the removal to its end yields / "
+                      "returns the key - and every caller in the package either hands it on the same way or writes what it receives "
+                      "into the text of an error on every path on which it received anything")
     rep.rule("R07.8", "every response kept by the parser gets its status branch in the generated module: inside the loop over "
                       "endpoint.responses the status value is emitted under every assignment of the template conditions")
     rep.rule("R07.5", "aggregation reaches the CLI: collection errors + schema/parameter errors + project errors; the collections (which "
@@ -240,11 +242,13 @@ def run(rep: Report, ctx: Any) -> str:
                             return True
                 return False
 
-            ok = cfg.is_dominated_by(st, names_it)
+            ok = cfg.is_dominated_by(st, names_it) or _key_handed_to_diagnostic(ix, f, st, key, cfgs)
             rep.check(ok, "R07.7", f"{short(f)}::remove {reg}[{anon(key, local_names(f.node))}]",
                       "a component schema is removed from the registry on a path that does not write its reference into any diagnostic: "
                       "the schema disappears without being named", where(f, st), lhs=norm(st)[:80],
-                      rhs="dominated by <error>.detail += f'...{key}...' (or an error record built from the key)")
+                      rhs="dominated by <error>.detail += f'...{key}...' (or an error record built from the key), or the key is handed to "
+                          "the caller (yield / return) on every path from the removal and every caller writes what it is handed into the "
+                          "text of an error")
     rep.floor("accounted_removals", n_removed, 1)
 
     # ---- R07.8 ---------------------------------------------------------------------------------------------------------------------
@@ -387,9 +391,11 @@ def run(rep: Report, ctx: Any) -> str:
 
     # ---- R07.6 -----------------------------------------------------------------------------------------------------------------------
     # the tag list (any spelling): the local handed to Endpoint.from_data as tags=
-    efd_calls = [c for c in ast.walk(fd.node) if isinstance(c, ast.Call) and call_name(c) == "Endpoint.from_data"]
-    rep.require(efd_calls, "Endpoint.from_data(...) call in EndpointCollection.from_data")
-    tagv = next((norm(k.value) for c in efd_calls for k in c.keywords if k.arg == "tags"), "")
+    # (the call may sit in a private helper from_data delegates the parsing of one operation to: what the helper is handed for the
+    # parameter it passes on is the tag list)
+    efd_tags = _handed_on(ix, fd, "Endpoint.from_data", "tags")
+    rep.require(efd_tags is not None, "Endpoint.from_data(...) call in EndpointCollection.from_data (or a private helper of it)")
+    tagv = next((norm(v) for v in efd_tags or []), "")
     tags_assign = [n for n in ast.walk(fd.node) if isinstance(n, ast.Assign) and norm(n.targets[0]) == tagv]
     rep.require(tags_assign, "tags assignment in from_data")
     first = tags_assign[0]
@@ -1141,6 +1147,31 @@ def _unlabelled_errors(ix: Any, f: Any, need: list[set[str]], cfgs: dict[str, CF
     return bad, n
 
 
+def _handed_on(ix: Any, f: Any, callee: str, kw: str, depth: int = 2) -> "list[ast.AST] | None":
+    """what `callee` is handed as `kw=` wherever the region of f calls it, in the terms of f: the argument itself when f makes the
+    call; when a private helper of f makes it and passes on one of its own parameters, what f hands the helper for that parameter.
+    None when the region holds no such call."""
+    calls = [c for c in _own_walk(f.node) if isinstance(c, ast.Call) and call_name(c) == callee]
+    if calls:
+        return [k.value for c in calls for k in c.keywords if k.arg == kw]
+    if depth <= 0:
+        return None
+    found: "list[ast.AST] | None" = None
+    for g in region(ix, f, depth=1):
+        if g is f:
+            continue
+        inner = _handed_on(ix, g, callee, kw, depth - 1)
+        if inner is None:
+            continue
+        found = found or []
+        gp = {x.arg for x in g.params}
+        for c in _own_walk(f.node):
+            if isinstance(c, ast.Call) and call_name(c).rsplit(".", 1)[-1] == g.name:
+                env = _bind_call(g, c)
+                found += [env[v.id] for v in inner if isinstance(v, ast.Name) and v.id in gp and v.id in env and v.id not in Locals(g.node).defs]
+    return found
+
+
 def _method_loops(f: Any) -> list[ast.For]:
     """the loops of f whose variable selects the operation from the path item: the attribute name handed to getattr"""
     return [lp for lp in _own_walk(f.node) if isinstance(lp, ast.For) and isinstance(lp.target, ast.Name) and any(
@@ -1413,6 +1444,145 @@ def _removals(fn: ast.AST, regs: set[str]) -> list[tuple[ast.stmt, str, ast.expr
                         isinstance(c.func.value, ast.Attribute) and c.func.value.attr in regs and c.args:
                     out.append((st, c.func.value.attr, c.args[0]))
     return out
+
+
+def _text_calls(e: "ast.AST | None", fn: ast.AST, depth: int = 4, _seen: "set[str] | None" = None) -> list[ast.Call]:
+    """the calls whose result (its elements, when it is gone through by a loop or a comprehension) goes, as text, into the string e:
+    through f-strings, + and %, `x or ""`, conditional expressions, string methods (sep.join(...)), str(), comprehensions (their
+    variable stands for what they go through), `for` variables, and the locals bound to such expressions"""
+    seen = _seen if _seen is not None else set()
+    if e is None or depth < 0:
+        return []
+    if isinstance(e, ast.JoinedStr):
+        return [x for v in e.values if isinstance(v, ast.FormattedValue) for x in _text_calls(v.value, fn, depth, seen)]
+    if isinstance(e, ast.BinOp) and isinstance(e.op, (ast.Add, ast.Mod)):
+        return _text_calls(e.left, fn, depth, seen) + _text_calls(e.right, fn, depth, seen)
+    if isinstance(e, ast.BoolOp):
+        return [x for v in e.values for x in _text_calls(v, fn, depth, seen)]
+    if isinstance(e, ast.IfExp):
+        return _text_calls(e.body, fn, depth, seen) + _text_calls(e.orelse, fn, depth, seen)
+    if isinstance(e, (ast.Tuple, ast.List, ast.Starred)):
+        return [x for el in (e.elts if not isinstance(e, ast.Starred) else [e.value]) for x in _text_calls(el, fn, depth, seen)]
+    if isinstance(e, (ast.ListComp, ast.GeneratorExp, ast.SetComp)):
+        own = {n for g in e.generators for n in _targets(g.target)}
+        out = [x for x in _text_calls(e.elt, fn, depth, seen)]
+        if names_in(e.elt) & own:
+            out += [x for g in e.generators for x in _text_calls(g.iter, fn, depth, seen)]
+        return out
+    if isinstance(e, ast.Call):
+        args = [*e.args, *[k.value for k in e.keywords]]
+        if isinstance(e.func, ast.Attribute) and e.func.attr in ("join", "format", "upper", "lower", "strip", "title", "replace"):
+            return _text_calls(e.func.value, fn, depth, seen) + [x for a in args for x in _text_calls(a, fn, depth, seen)]
+        if call_name(e) in {"str", "repr", "format"} | (_ELEMENTWISE - {"enumerate"}):
+            return [x for a in args for x in _text_calls(a, fn, depth, seen)]
+        return [e]
+    if isinstance(e, ast.Name) and e.id not in seen:
+        seen.add(e.id)
+        out = []
+        for kind, st, v in Locals(fn).defs.get(e.id, []):
+            if kind in ("assign", "aug") or kind.startswith("for"):
+                out += _text_calls(v, fn, depth - 1, seen)
+        return out
+    return []
+
+
+def _calls_of(ix: Any, f: Any) -> list[tuple[Any, ast.Call]]:
+    """(function, call) for every call in the package that can be a call of f: by its name, on a receiver that can be an instance
+    of its class (see _may_denote)"""
+    out = []
+    for h in ix.all_functions:
+        if not h.module.name.startswith(PKG):
+            continue
+        for c in _own_walk(h.node):
+            if isinstance(c, ast.Call) and call_name(c).rsplit(".", 1)[-1] == f.name and _may_denote(ix, h, c, [f]):
+                if f.cls is not None and isinstance(c.func, ast.Attribute):
+                    known = receiver_classes(ix, h, c.func.value)
+                    if known and not any(k.name in known and f.cls in ix.mro(k) for k in ix.classes.values()):
+                        continue
+                out.append((h, c))
+    return out
+
+
+def _hands_on(n: object, what: Any) -> bool:
+    """statement n yields / returns a value for which what(value) holds"""
+    if isinstance(n, ast.Return):
+        return n.value is not None and what(n.value)
+    return isinstance(n, ast.stmt) and any(isinstance(y, (ast.Yield, ast.YieldFrom)) and y.value is not None and what(y.value) for y in walk_own(n))
+
+
+def _received_is_named(ix: Any, h: Any, c: ast.Call, cfgs: dict[str, CFG], depth: int = 2) -> bool:
+    """whatever call c (in h) returns / yields ends up in the text of an error: h hands it on as it is (`return c` / `yield from c`,
+    and the callers of h are asked in turn), or - on every path from the call to the end of h on which the call delivered anything -
+    h writes a string computed from it into a text attribute of an error"""
+    st = next((s_ for s_ in cfg_of(h, cfgs).stmts() if any(x is c for x in walk_own(s_))), None)
+    if st is None:
+        return False
+    if _hands_on(st, lambda v: _through_copies(v) is c):
+        sites = [(g, c2) for g, c2 in _calls_of(ix, h) if g is not h]
+        return depth > 0 and bool(sites) and all(_received_is_named(ix, g, c2, cfgs, depth - 1) for g, c2 in sites)
+    cfg = cfg_of(h, cfgs)
+    errs = error_names(h.node) | {x.arg for x in h.params if x.annotation is not None and norm(x.annotation).strip("'\"").rsplit(".", 1)[-1] in ERROR_CLASSES}
+
+    def writes(n: object) -> bool:
+        if not isinstance(n, (ast.Assign, ast.AugAssign)):
+            return False
+        tgts = n.targets if isinstance(n, ast.Assign) else [n.target]
+        return any(isinstance(t, ast.Attribute) and isinstance(t.value, ast.Name) and t.value.id in errs for t in tgts) and \
+            any(x is c for x in _text_calls(n.value, h.node))
+
+    # locals that hold (text made of) what the call delivered: empty when it delivered nothing
+    lc = Locals(h.node)
+    derived = {name for name in lc.defs if any(x is c for x in _text_calls(ast.Name(id=name, ctx=ast.Load()), h.node))}
+
+    def only_when_delivered(n: object) -> "list[object] | None":
+        """the successors of n that are taken when the call delivered something (None: all of them)"""
+        if isinstance(n, ast.If):
+            t, pos = n.test, True
+            while isinstance(t, ast.UnaryOp) and isinstance(t.op, ast.Not):
+                t, pos = t.operand, not pos
+            if isinstance(t, ast.Name) and t.id in derived:
+                return [n.body[0]] if pos else ([n.orelse[0]] if n.orelse else [x for x in cfg.succ.get(n, ()) if x is not n.body[0]])
+        return None
+
+    # every path from the call to the end passes the write; a loop over what was delivered is entered at least once
+    first_for = {id(n) for n in cfg.stmts() if isinstance(n, ast.For) and any(x is c for x in _text_calls(n.iter, h.node))}
+    seen: set[tuple[int, bool]] = set()
+    stack: list[tuple[object, bool]] = [(st, False)]
+    while stack:
+        n, again = stack.pop()
+        if (id(n), again) in seen:
+            continue
+        seen.add((id(n), again))
+        if n == "EXIT":
+            return False
+        if writes(n):
+            continue
+        succ = list(cfg.succ.get(n, ()))
+        if id(n) in first_for and not again and n.body:  # type: ignore[attr-defined]
+            succ = [n.body[0]]  # type: ignore[attr-defined]
+        else:
+            succ = only_when_delivered(n) or succ
+        for x in succ:
+            stack.append((x, id(x) in first_for and id(x) in {i for i, _ in seen}))
+    return True
+
+
+def _key_handed_to_diagnostic(ix: Any, f: Any, st: ast.stmt, key: ast.expr, cfgs: dict[str, CFG]) -> bool:
+    """the removal `st` of `key` in f is accounted for by f's callers: every path from the removal to the end of f yields / returns
+    the key, and every caller of f in the package names what it receives (_received_is_named); a call of f inside f (the cascade)
+    whose result f hands on as it is goes to the same callers"""
+    cfg = cfg_of(f, cfgs)
+    k = norm(key)
+    if not cfg.every_path_passes(st, "EXIT", lambda n: _hands_on(n, lambda v: norm(v) == k)):
+        return False
+    sites = _calls_of(ix, f)
+    outside = [(h, c) for h, c in sites if h is not f]
+    for h, c in sites:
+        if h is f:
+            own = next((s_ for s_ in cfg.stmts() if any(x is c for x in walk_own(s_))), None)
+            if own is None or not _hands_on(own, lambda v, c=c: _through_copies(v) is c):
+                return False
+    return bool(outside) and all(_received_is_named(ix, h, c, cfgs) for h, c in outside)
 
 
 OPERATIONS, SCHEMAS, STATUSES, MEDIA = "operations", "component schemas", "response statuses", "request media types"
